@@ -464,3 +464,21 @@ Proof.
   destruct ok_log_hist_hyps as (H1 & H2 & H3 & H4). destruct ok_log_runs as (R1 & R2).
   repeat (split; [assumption|]). assumption.
 Qed.
+
+(** the final-coverage clause with the files of the image on a concrete history:
+    the files of [ex_nodes] (executable bytes 32..48), the log of [ok_log] (measured:
+    8..12, 16..20, 32..36, 48..52): bytes 36..48 are reported by the first run and,
+    identically, after pcr0tool's merge has sorted the memory of the log *)
+Example C10_ex_history_files :
+  snd (run_passes ok_heap ok_log [PVfc (uefi_files wimg ex_nodes); PSm; PVfc (uefi_files wimg ex_nodes)]) =
+    [RIss (Ok [mkVI 1 6 [mkRef wimg MNil [mkR 36 12]] [mkRef wimg MNil [mkR 8 4; mkR 16 4; mkR 32 4; mkR 48 4]]]);
+     RRefs (Ok [mkRef wimg MNil [mkR 8 4; mkR 16 4; mkR 32 4; mkR 48 4]]);
+     RIss (Ok [mkVI 1 6 [mkRef wimg MNil [mkR 36 12]] [mkRef wimg MNil [mkR 8 4; mkR 16 4; mkR 32 4; mkR 48 4]]])].
+Proof. exact ok_log_files_runs. Qed.
+
+(** the premise of [C10_verdict_blind_to_range_order] is met by two DIFFERENT
+    readings of one log: before and after an in-place sort *)
+Example C10_ex_blind :
+  Forall2 sreq (val_log ok_heap ok_log) (val_log (fst (run_passes ok_heap ok_log [PSm])) ok_log) /\
+  val_log ok_heap ok_log <> val_log (fst (run_passes ok_heap ok_log [PSm])) ok_log.
+Proof. exact ok_log_sreq. Qed.
